@@ -924,3 +924,94 @@ Proof.
   - exact (int_float64_int f32 f64 widen narrow of_int to_int H53 src dst indir x H Hx).
   - exact (int_float32_int f32 f64 widen narrow of_int to_int H53 H24 src dst indir x H Hx).
 Qed.
+
+(* ================================================================== *)
+(* 6. FieldByName: the breadth-first search against the path rule       *)
+(* ================================================================== *)
+Local Open Scope N_scope.
+
+(* all lists over an alphabet of length <= k *)
+Fixpoint lists_upto {A} (alpha : list A) (k : nat) : list (list A) :=
+  match k with
+  | O => [[]]
+  | S k' => [] :: flat_map (fun l => map (fun a => a :: l) alpha) (lists_upto alpha k')
+  end.
+
+(* the struct types of the swept domain: up to k embedded fields (value or pointer does not matter
+   to the search) whose targets are taken from [targets] (repetitions allowed: two edges to one
+   type are the compressed form of a diamond), and a field named X (name 1) absent, first or last *)
+Definition emb_field (t : N) : sfield := SField (100 + t) (Some t).
+Definition x_field : sfield := SField 1 None.
+Definition type_options (targets : list N) (k : nat) (xfirst : bool) : list (list sfield) :=
+  flat_map (fun es => let fs := map emb_field es in
+                      if xfirst then [fs; x_field :: fs; fs ++ [x_field]] else [fs; fs ++ [x_field]])
+           (lists_upto targets k).
+
+Fixpoint forall_graphs (opts : list (list sfield)) (n : nat) (acc : sgraph) (P : sgraph -> bool) : bool :=
+  match n with
+  | O => P acc
+  | S n' => forallb (fun o => forall_graphs opts n' (o :: acc) P) opts
+  end.
+
+Lemma forall_graphs_spec opts P : forall n acc, forall_graphs opts n acc P = true ->
+  forall l, List.length l = n -> Forall (fun o => In o opts) l -> P (rev l ++ acc) = true.
+Proof.
+  induction n as [|n IH]; intros acc H l Hl Hin.
+  - destruct l; [exact H|discriminate].
+  - destruct l as [|o l]; [discriminate|]. inversion Hin; subst. cbn [forall_graphs] in H.
+    rewrite forallb_forall in H. specialize (H o H2).
+    cbn [rev]. rewrite <- app_assoc. cbn [app]. apply (IH (o :: acc) H l); [now inversion Hl|assumption].
+Qed.
+
+Definition res_eqb (a b : option (list N)) : bool := option_eqb (list_eqb N.eqb) a b.
+Lemma res_eqb_eq a b : res_eqb a b = true -> a = b.
+Proof.
+  destruct a, b; cbn; try discriminate; auto. intros H. f_equal.
+  apply (list_eqb_eq N.eqb); [|exact H]. intros x y E. now apply N.eqb_eq.
+Qed.
+
+(* the names searched for: X and the name of every embedded field *)
+Definition search_names (n : nat) : list N := 1 :: map (fun t => 100 + N.of_nat t) (seq 0 n).
+Definition agree (n : nat) (g : sgraph) : bool :=
+  forallb (fun nm => res_eqb (field_by_name true g 0 nm) (go_field_by_name_func g 0 (N.eqb nm))) (search_names n).
+
+(* domain A: 3 struct types, each with up to 2 embedded fields over all 3 types, X absent/first/last;
+   domain B: 4 struct types, embedded fields over types 1..3 (type 0 is the root), X absent/last *)
+Definition opts_A := type_options [0; 1; 2] 2 true.
+Definition opts_B := type_options [1; 2; 3] 2 false.
+Lemma sweep_A : forall_graphs opts_A 3 [] (agree 3) = true.
+Proof. vm_compute. reflexivity. Qed.
+Lemma sweep_B : forall_graphs opts_B 4 [] (agree 4) = true.
+Proof. vm_compute. reflexivity. Qed.
+
+Lemma agree_in_domain opts n (H : forall_graphs opts n [] (agree n) = true) :
+  forall g, List.length g = n -> Forall (fun o => In o opts) g ->
+  forall nm, In nm (search_names n) -> field_by_name true g 0 nm = go_field_by_name_func g 0 (N.eqb nm).
+Proof.
+  intros g Hl Hin nm Hnm.
+  pose proof (forall_graphs_spec opts (agree n) n [] H (rev g)) as A.
+  rewrite rev_length, rev_involutive, app_nil_r in A.
+  specialize (A Hl). assert (Hr : Forall (fun o => In o opts) (rev g)).
+  { apply Forall_forall. intros o Ho. rewrite <- in_rev in Ho. rewrite Forall_forall in Hin. auto. }
+  specialize (A Hr). unfold agree in A. rewrite forallb_forall in A. apply res_eqb_eq, A, Hnm.
+Qed.
+
+Lemma fbn_domain_A : forall g, List.length g = 3%nat -> Forall (fun o => In o opts_A) g ->
+  forall nm, In nm (search_names 3) -> field_by_name true g 0 nm = go_field_by_name_func g 0 (N.eqb nm).
+Proof. exact (agree_in_domain opts_A 3 sweep_A). Qed.
+Lemma fbn_domain_B : forall g, List.length g = 4%nat -> Forall (fun o => In o opts_B) g ->
+  forall nm, In nm (search_names 4) -> field_by_name true g 0 nm = go_field_by_name_func g 0 (N.eqb nm).
+Proof. exact (agree_in_domain opts_B 4 sweep_B). Qed.
+
+(* without handing the multiplicity down (prop = false) the search finds a field that two paths
+   reach: S embeds C twice (the compressed diamond), C embeds D, D has X *)
+Definition g_diamond_below : sgraph :=
+  [[emb_field 1; emb_field 1]; [emb_field 2]; [x_field]].
+Lemma fbn_no_propagation_wrong :
+  In [emb_field 1; emb_field 1] opts_A /\
+  field_by_name false g_diamond_below 0 1 = Some [0; 0; 0] /\
+  field_by_name true g_diamond_below 0 1 = None /\
+  go_field_by_name_func g_diamond_below 0 (N.eqb 1) = None.
+Proof.
+  split; [vm_compute; repeat (try (left; reflexivity); right)|vm_compute; repeat split].
+Qed.
